@@ -3,6 +3,10 @@
  * inside the same buffer, exactly spec_collapse(path).  The path lives at base+1 of an exact-size object
  * (the code forms p-1); base[0] is a guard byte that must never be written. */
 #include "verif.h"
+#ifdef KCOMP            /* family 2: KCOMP components of exactly 2 bytes each ('/' positions fixed, bytes symbolic over {'.','a','b'}):
+                         * every component is "..", or an ordinary 2-byte name, independently - '..' at every position */
+#define N (3 * KCOMP)
+#endif
 #define PS_MAXLEN (N + 1)
 #include "path_spec.h"
 #include COLLAPSE_INC
@@ -17,7 +21,12 @@ void h_collapse(void)
     base[0] = (char)IN.guard;
     for(size_t i = 0; i < N; i++) {
         unsigned char c = IN.s[i];
+#ifdef KCOMP
+        if(i % 3 == 0) { V_ASSUME(c == '/'); c = '/'; }
+        else V_ASSUME(c == '.' || c == 'a' || c == 'b');
+#else
         V_ASSUME(c == '/' || c == '.' || c == 'a' || c == 'b');
+#endif
 #ifndef ALLOW_EMPTY
         if(i > 0) V_ASSUME(!(c == '/' && IN.s[i - 1] == '/'));     /* no empty component */
 #endif
